@@ -150,6 +150,37 @@ func c03Run(c *Ctx) {
 	// the shape verdicts carry over to the real CLI (file / --outputFile onto a stale file, two locales) when it emits
 	// what the in-process redaction emits
 	cliCorpusPass(c, "L0", corpus, fs[:4], true)
+	// --- namespace-bearing pipeline stages in all their forms (string, document in several member orders) at nesting
+	// depth 0..3, with and without --redactNamespaces
+	{
+		o := GenOpts{DB: "dbZq1", Coll: "coQx7", LeafSet: 2}
+		var cs *Case
+		Explore(func(x *X) { cs = c12GenStageCase(x, o) }, ExploreOpts{Bound: -1, ShardDepth: 3, Shard: c.Shard, NShards: c.NShards}, func(x *X) {
+			if cs.Gate != 0 && cs.Container != 0 {
+				return
+			}
+			line, root := cs.Root.JSON(), cs.Root
+			c.Distinct(line)
+			for _, fl := range []Flags{{W: true}, {W: true, N: true, B: true, R: customReplacement}, {}} {
+				fl.Apply()
+				out, ok, pv := redactLine(line)
+				c.Eval(1)
+				if pv != nil {
+					c.Count("skipped_panics", 1)
+					continue
+				}
+				if sig, detail := c03Eval(root, out, ok); sig != "" {
+					c.Outcome("differs")
+					fl := fl
+					c.Violate("shape:"+sig, fmt.Sprintf("%s; %s; flags [%s]; input: %s", detail, cs.SlotName, fl, trunc(line, 600)), int64(len(line)),
+						map[string]any{"kind": "redact-line", "input": line, "flags": fl.String(), "output": out},
+						func() bool { fl.Apply(); o, k, _ := redactLine(line); s, _ := c03Eval(root, o, k); return s != "" })
+				} else {
+					c.Outcome("same-shape")
+				}
+			}
+		})
+	}
 	// --- T
 	paths, _ := vocabPaths(c.Src)
 	vals := tValues()
@@ -198,7 +229,7 @@ func c03Run(c *Ctx) {
 func init() {
 	register(&PropDef{
 		ID: "C03", Level: "exploration",
-		Rule:        "G at <=1 non-default production (thorough <=2), all 6 gates (also lines the tool must not touch) and all containers, plus T = every vocabulary path x 53 value kinds x 5 tree shapes x 10 placements; flag sets over N,B,I,W,R,Y,Z (never --redactFieldNames); inputs with duplicate sibling keys are skipped; oracle = the output parses (own parser) as one object on one line whose tree has the same member names in the same order, the same array lengths and the same leaf types as the input tree. distinct = distinct input lines" + scaleRule,
+		Rule:        "namespace-bearing pipeline stages in 18 forms (string / document with its members in several orders) at nesting depth 0..3 with and without --redactNamespaces; G at <=1 non-default production (thorough <=2), all 6 gates (also lines the tool must not touch) and all containers, plus T = every vocabulary path x 53 value kinds x 5 tree shapes x 10 placements; flag sets over N,B,I,W,R,Y,Z (never --redactFieldNames); inputs with duplicate sibling keys are skipped; oracle = the output parses (own parser) as one object on one line whose tree has the same member names in the same order, the same array lengths and the same leaf types as the input tree. distinct = distinct input lines" + scaleRule,
 		Assumptions: []string{"the independent JSON parser of the harness is the judge of well-formedness"},
 		Run:         c03Run,
 	})
